@@ -191,6 +191,19 @@ impl Driver for KvBin {
     type Shadow = ();
     fn unusual_output(r: &mut Rng, q: &Issued) -> Vec<u8> {
         use crux_http::protocol::{HttpHeader, HttpResponse, HttpResult};
+        if q.fmt == "TimeResponse" {
+            // a well-framed answer whose Instant carries a nanosecond count of a second or more (the wire type is a bare
+            // u32): whatever the core makes of it, it must not panic and the other requests must stay usable
+            let eff: kvapp::EffectFfi = bridge_opts().deserialize(&q.raw).unwrap();
+            if let kvapp::EffectFfi::Time(crux_time::TimeRequest::Now) = eff {
+                let mut b = bridge_opts().serialize(&crux_time::TimeResponse::Now { instant: crux_time::Instant::new(r.below(4_000_000_000), 0) }).unwrap();
+                let n = b.len();
+                let nanos: u32 = *r.pick(&[1_000_000_000u32, 1_000_000_001, 1_999_999_999, 1 << 30, 1 << 31, u32::MAX]);
+                b[n - 4..].copy_from_slice(&nanos.to_le_bytes());
+                return b;
+            }
+            return Self::valid_output(r, q);
+        }
         if q.fmt != "HttpResult" { return Self::valid_output(r, q); }
         let odd = ["caf\u{e9}", "\u{dc}n\u{ef}", "", "a b", "x\ny", "x-ok", "\u{1f511}", "content-type", "text/plain; charset=\u{fc}tf-8"];
         let status = *r.pick(&[0u16, 99, 100, 199, 200, 204, 299, 304, 418, 451, 599, 600, 999, u16::MAX]);
@@ -345,7 +358,7 @@ fn history<D: Driver>(r: &mut Rng, hno: u64) {
                 let pick = if probeable.is_empty() { *r.pick(&alive) } else { *r.pick(&probeable) };
                 if reqs[pick].m.kind == Kind::Never && r.coin(2, 3) && !answerable.is_empty() { Some(*r.pick(&answerable)) } else { Some(pick) }
             };
-            let which = r.below(6) as usize;
+            let which = if target.map_or(false, |i| reqs[i].m.fmt == "TimeResponse") && r.coin(2, 3) { 5 } else { r.below(6) as usize };
             let input = if which == 5 {
                 match target { None => D::valid_event(r), Some(i) => D::unusual_output(r, &reqs[i].m) }
             } else {
